@@ -124,6 +124,13 @@ def impl(case):
         tr = traj.transitions_between_sites(sites, 'Li', site_radius=radius, site_inner_fraction=case['frac'])
         out['states'] = tr.states.tolist()
         out['inner'] = tr.inner_states.tolist()
+        # derived views (previous / next site, per-state radial distributions) are computed in between: the state arrays read the same afterwards
+        tr.states_prev(), tr.states_next()
+        try:
+            tr.radial_distribution(floating_specie='Li', max_dist=2.0, resolution=0.5)
+        except Exception:
+            pass
+        out['states_stable'] = bool(np.array_equal(np.array(out['states']), tr.states) and np.array_equal(np.array(out['inner']), tr.inner_states))
         # the same argument objects are reused for a second analysis: same answer, arguments untouched
         out['radius_arg_changed'] = radius != case['radius']
         tr2 = traj.transitions_between_sites(sites, 'Li', site_radius=radius, site_inner_fraction=case['frac'])
@@ -215,6 +222,8 @@ def oracle(case, out):
     if 'states' not in out:
         return [('c02/harness-error', f"{out.get('error')}: {out.get('msg')} {out.get('tb', '')[-500:]}")]
     fs = []
+    if out.get('states_stable') is False:
+        fs.append(('sites/states-changed-by-derived-view', 'Transitions.states / inner_states read differently after states_prev(), states_next() and radial_distribution() were called'))
     if out.get('radius_arg_changed'):
         fs.append(('sites/radius-argument-mutated', f'the site_radius argument {case["radius"]} was modified by the analysis (inner fraction {case["frac"]})'))
     if out.get('second_call_same') is False:
